@@ -608,7 +608,8 @@ def midi_hz(m):
 class Melody(Task):
     name = "melody"
     RANGE = {"Voicing Recall": "unit", "Voicing False Alarm": "unit", "Raw Pitch Accuracy": "unit",
-             "Raw Chroma Accuracy": "unit", "Overall Accuracy": "unit"}
+             "Raw Chroma Accuracy": "unit", "Overall Accuracy": "unit",
+             "direct:Voicing Recall": "unit", "direct:Voicing False Alarm": "unit"}
     OPT = {"Voicing Recall": 1.0, "Voicing False Alarm": 0.0, "Raw Pitch Accuracy": 1.0,
            "Raw Chroma Accuracy": 1.0, "Overall Accuracy": 1.0}
     TOLS = [("cent_tolerance", ["10", "25", "50", "80", "150"],
@@ -652,10 +653,23 @@ class Melody(Task):
         if rng.random() < 0.3:   # continuous reference reward / estimated voicing (Bittner & Bosch)
             out["reward"] = [S(Fr(rng.randint(0, 8), 8)) if x is not None else "0" for x in m]
             out["est_voicing"] = [S(Fr(rng.randint(0, 8), 8)) for _ in em]
-        if n >= 5 and rng.random() < 0.25:
+        if rng.random() < 0.25:
+            if n < 5:
+                n = 5
+                t, m = self._series(rng, n, hop)
+                out = {"ref": [[S(x) for x in t], [None if x is None else S(x) for x in m]]}
             # the estimate on its own time base (another hop, about the same span): it is resampled onto the reference's,
             # with any interpolation `kind` scipy's interp1d accepts (documented keyword of evaluate / to_cent_voicing)
             ehop = hop * rng.choice([Fr(1, 2), Fr(3, 2), Fr(3, 4), Fr(5, 4), Fr(2)])
+            if rng.random() < 0.5:
+                # a long reference on a fine grid against a coarse estimate: most target times fall between two
+                # estimate frames
+                n = rng.choice([20, 40])
+                t, m = self._series(rng, n, hop)
+                out["ref"] = [[S(x) for x in t], [None if x is None else S(x) for x in m]]
+                out.pop("reward", None)
+                out.pop("est_voicing", None)
+                ehop = hop * rng.choice([Fr(2), Fr(29, 10), Fr(3), Fr(7, 2)])
             en = max(5, int((n * hop) / ehop) + rng.choice([0, 1, 2]))
             _, em2 = self._series(rng, en, ehop)
             # 3.7 cents off the 12.5-cent lattice: no difference to a reference pitch - also after linear interpolation
@@ -665,7 +679,36 @@ class Melody(Task):
             if "est_voicing" in out or rng.random() < 0.5:
                 out["est_voicing"] = [S(Fr(rng.randint(0, 8), 8)) for _ in em2]
                 out.setdefault("reward", [S(Fr(rng.randint(0, 8), 8)) if x is not None else "0" for x in m])
+                if rng.random() < 0.5:
+                    # a crisp confidence profile that follows the reference's voicing (1 inside, 0 outside), with one
+                    # intermediate value: valid (every value in [0, 1]), and the sharpest thing an interpolation can meet
+                    ev = []
+                    for i in range(en):
+                        j = min(n - 1, int(round(float(ehop * i / hop))))
+                        ev.append(Fr(1) if m[j] is not None else Fr(0))
+                    ev[rng.randrange(en)] = rng.choice([Fr(1, 2), Fr(1, 4), Fr(3, 4)])
+                    out["est_voicing"] = [S(v) for v in ev]
+                    out.pop("reward", None)
             out["kw"] = {"kind": rng.choice(["linear", "nearest", "zero", "slinear", "quadratic", "cubic"])}
+            if rng.random() < 0.35:
+                # one voiced passage between two silences; the estimate is pitched throughout and comes with a confidence
+                # curve that is 1 inside the passage and 0 outside (plus one intermediate value in a silence)
+                a, b, c = rng.randint(3, 12), rng.randint(4, 30), rng.randint(3, 12)
+                n = a + b + c
+                pitch = Fr(rng.randint(48 * 8, 72 * 8), 8)
+                m = [None] * a + [pitch] * b + [None] * c
+                out["ref"] = [[S(hop * i) for i in range(n)], [None if x is None else S(x) for x in m]]
+                ehop = hop * rng.choice([Fr(2), Fr(29, 10), Fr(3), Fr(7, 2), Fr(3, 2)])
+                en = int((n * hop) / ehop) + 1
+                ev = [Fr(1) if hop * a < ehop * i < hop * (a + b) else Fr(0) for i in range(en)]
+                zeros = [i for i, v in enumerate(ev) if v == 0]
+                if zeros:
+                    ev[rng.choice(zeros)] = rng.choice([Fr(1, 2), Fr(1, 4)])
+                out["est"] = [[S(ehop * i) for i in range(en)], [S(pitch + Fr(37, 1000))] * en]
+                out["est_voicing"] = [S(v) for v in ev]
+                out.pop("reward", None)
+                if rng.random() < 0.6:
+                    out["kw"] = {"kind": rng.choice(["quadratic", "cubic"])}
         return out
 
     def gen_self(self, rng):
@@ -693,8 +736,24 @@ class Melody(Task):
             kw.setdefault("ref_reward", farr(inp["reward"]))
         if inp.get("est_voicing") is not None:
             kw.setdefault("est_voicing", farr(inp["est_voicing"]))
-        return mir_eval.melody.evaluate(farr(inp["ref"][0]), self._hz(inp["ref"][1]) * float(F(hz.get("ref", 1))),
-                                        farr(inp["est"][0]), self._hz(inp["est"][1]) * float(F(hz.get("est", 1))), **kw)
+        args = (farr(inp["ref"][0]), self._hz(inp["ref"][1]) * float(F(hz.get("ref", 1))),
+                farr(inp["est"][0]), self._hz(inp["est"][1]) * float(F(hz.get("est", 1))))
+        out = collections.OrderedDict()
+        try:
+            # the documented two-step use: to_cent_voicing(...) and then voicing_recall / voicing_false_alarm on what it returns
+            ckw = {k: (np.array(v) if isinstance(v, np.ndarray) else v) for k, v in kw.items()
+                   if k in ("est_voicing", "ref_reward", "hop", "kind", "base_frequency")}
+            rv, _, ev, _ = mir_eval.melody.to_cent_voicing(*[np.array(a) for a in args], **ckw)
+            out["direct:Voicing Recall"] = mir_eval.melody.voicing_recall(rv, ev)
+            out["direct:Voicing False Alarm"] = mir_eval.melody.voicing_false_alarm(rv, ev)
+        except Exception:  # noqa: BLE001 - the direct route is an extra observation, not a requirement
+            pass
+        try:
+            out.update(mir_eval.melody.evaluate(*args, **kw))
+        except Exception:  # noqa: BLE001
+            if not out:
+                raise           # (whether a valid input may raise is C14's question; the direct scores are still judged)
+        return out
 
 
 class Multipitch(Task):
